@@ -49,6 +49,47 @@ pub fn optimize(rules: Vec<Rule>) -> Vec<OptimizedRule> {
         .collect()
 }
 
+/// The individual passes of [`optimize`], callable one by one (monitoring builds only).
+#[cfg(pest_parser_pest_verif)]
+#[allow(missing_docs)]
+pub mod verif_passes {
+    use super::*;
+
+    pub fn rotate(rule: Rule) -> Rule {
+        rotator::rotate(rule)
+    }
+    pub fn skip(rule: Rule, map: &HashMap<String, Expr>) -> Rule {
+        skipper::skip(rule, map)
+    }
+    pub fn unroll(rule: Rule) -> Rule {
+        unroller::unroll(rule)
+    }
+    pub fn concatenate(rule: Rule) -> Rule {
+        concatenator::concatenate(rule)
+    }
+    pub fn factor(rule: Rule) -> Rule {
+        factorizer::factor(rule)
+    }
+    pub fn list(rule: Rule) -> Rule {
+        lister::list(rule)
+    }
+    pub fn to_optimized(rule: Rule) -> OptimizedRule {
+        rule_to_optimized_rule(rule)
+    }
+    pub fn restore_on_err(
+        rule: OptimizedRule,
+        map: &HashMap<String, OptimizedExpr>,
+    ) -> OptimizedRule {
+        restorer::restore_on_err(rule, map)
+    }
+    pub fn rule_map(rules: &[Rule]) -> HashMap<String, Expr> {
+        to_hash_map(rules)
+    }
+    pub fn optimized_rule_map(rules: &[OptimizedRule]) -> HashMap<String, OptimizedExpr> {
+        to_optimized_hash_map(rules)
+    }
+}
+
 fn rule_to_optimized_rule(rule: Rule) -> OptimizedRule {
     fn to_optimized(expr: Expr) -> OptimizedExpr {
         match expr {
